@@ -858,6 +858,79 @@ static void cmd_getelem(const std::vector<std::string> &tk)
 }
 
 // ---------------------------------------------------------------------
+// C15 on sets too large to tabulate: product sets
+//   prodset A F v,v v v,v,v ...   one token per variable (variable 1 first): allowed values
+//   idxbig X FI A                 X = CONVERT_TO_INDEX_SET(A); prints the stored cardinality
+//   getelemat X i1 i2 ...         getElement at the given (large) indexes, and the value of
+//                                 the index set at the member found
+// nothing here prints a table
+// ---------------------------------------------------------------------
+static void cmd_prodset(const std::vector<std::string> &tk)
+{
+    ForestInfo &fi = forestOf(tk[2]);
+    dd_edge &e = freshEdge(tk[1], tk[2]);
+    forest* F = fi.F;
+    unsigned K = DOMS[fi.dom].sizes.size();
+    if (tk.size() != 3 + K) throw Bad("prodset: one token per variable");
+    F->createConstant(true, e);
+    for (unsigned k=1; k<=K; k++) {
+        dd_edge u(F);
+        F->createConstant(false, u);
+        std::string l = tk[2+k];
+        size_t pos = 0;
+        while (pos <= l.size()) {
+            size_t c = l.find(',', pos);
+            if (c == std::string::npos) c = l.size();
+            if (c > pos) {
+                minterm m(F);
+                for (unsigned j=1; j<=K; j++) m.setVar(j, DONT_CARE);
+                m.setVar(k, atoi(l.substr(pos, c-pos).c_str()));
+                dd_edge t(F);
+                m.buildFunction(false, t);
+                apply(UNION, u, t, u);
+            }
+            pos = c + 1;
+        }
+        apply(INTERSECTION, e, u, e);
+    }
+    long card = -1;
+    apply(CARDINALITY, e, card);
+    emit("prodset card=" + std::to_string(card));
+}
+
+static void cmd_idxbig(const std::vector<std::string> &tk)
+{
+    ForestInfo &fi = forestOf(tk[2]);
+    dd_edge &a = edgeOf(tk[3]);
+    dd_edge &x = freshEdge(tk[1], tk[2]);
+    apply(CONVERT_TO_INDEX_SET, a, x);
+    emit("idxbig stored_card=" + std::to_string(long(fi.F->getIndexSetCardinality(x.getNode()))));
+}
+
+static void cmd_getelemat(const std::vector<std::string> &tk)
+{
+    dd_edge &a = edgeOf(tk[1]);
+    ForestInfo &fi = forestOf(EDGEFOR[tk[1]]);
+    unsigned K = DOMS[fi.dom].sizes.size();
+    std::string s = "getelemat";
+    for (size_t j=2; j<tk.size(); j++) {
+        long i = atol(tk[j].c_str());
+        minterm m(fi.F);
+        bool ok = a.getElement(i, m);
+        s += " ";
+        if (!ok) { s += "none"; continue; }
+        for (unsigned k=K; k>=1; k--) {
+            s += std::to_string(m.from(k));
+            if (k>1) s += ".";
+        }
+        long v = -1;
+        a.evaluate(m, v);
+        s += "=" + std::to_string(v);
+    }
+    emit(s);
+}
+
+// ---------------------------------------------------------------------
 // C14: exchange files
 //   write <id> F A B ...        roots A B ... of forest F to file <id>
 //   read  <id> F N1 N2 ...      read file <id> into forest F, roots named N1..
@@ -1450,6 +1523,9 @@ static void run(const std::vector<std::string> &tk)
     else if (c == "range") cmd_range(tk);
     else if (c == "iter") cmd_iter(tk);
     else if (c == "getelem") cmd_getelem(tk);
+    else if (c == "prodset") cmd_prodset(tk);
+    else if (c == "idxbig") cmd_idxbig(tk);
+    else if (c == "getelemat") cmd_getelemat(tk);
     else if (c == "iter2") cmd_iter2(tk);
     else if (c == "dropiter") {
         auto f = ITERS.find(tk[1]);
